@@ -6,6 +6,7 @@
 import GrogModel.Drv.Proto
 import GrogModel.Tree
 import GrogModel.Store
+import GrogModel.Remote
 open Lean
 
 namespace Grog.Drv.Stores
@@ -225,7 +226,69 @@ def replay : Handler := fun j => do
   pure (Json.mkObj [("accepted", Json.bool bad.isNone), ("at", match bad with | some i => Json.num i | none => Json.num (-1 : Int)),
     ("n", Json.num evs.length), ("visible", Json.arr vis.toArray)])
 
+/-! ### C08: replay of wrapper-call traces through `Remote.step` -/
+
+def blobOf (j : Json) : Except String Remote.Blob := do
+  let k ← getBytes j "k"
+  let refs ← getBytesList j "refs"
+  let ok := (getBool j "contentOk").toOption.getD true
+  pure ⟨if ok then k else k ++ [0], refs⟩
+
+def remoteEvOf (j : Json) : Except String Remote.Ev := do
+  let e ← getStr j "e"
+  match e with
+  | "proc" => pure (.proc (← getNat j "p") (← getNat j "m"))
+  | "local" => pure (.localSet (← getNat j "m") (← nsOf (← getStr j "ns")) (← getBytes j "k") (← blobOf j))
+  | "exists" => pure (.existsRes (← getNat j "p") (← nsOf (← getStr j "ns")) (← getBytes j "k") (← resOf (← getStr j "r")))
+  | "existsAll" => pure (.existsAllRes (← getNat j "p") (← getBytes j "k") (← resOf (← getStr j "r")))
+  | "get" =>
+    let r ← getStr j "r"
+    let b ← blobOf j
+    pure (.getRes (← getNat j "p") (← nsOf (← getStr j "ns")) (← getBytes j "k") (if r == "yes" then some b else none) (← getBool j "filled"))
+  | "set" =>
+    pure (.setRes (← getNat j "p") (← nsOf (← getStr j "ns")) (← getBytes j "k") (← blobOf j) (← getBool j "l") (← getBool j "rem") (← getBool j "ok"))
+  | _ => throw s!"unknown event {e}"
+
+def remoteReplayFrom (v : Remote.Variant) (s : Remote.State) (i : Nat) : List Remote.Ev → Remote.State × Option Nat
+  | [] => (s, none)
+  | e :: es =>
+    match Remote.step v s e with
+    | some s' => remoteReplayFrom v s' (i + 1) es
+    | none => (s, some i)
+
+/-- {"op":"store.remotereplay","variant":"old"|"fixed","events":[..],"query":[[where,ns,key],..]}  (where = -1: remote store, else machine) -/
+def remoteReplay : Handler := fun j => do
+  let v : Remote.Variant := match j.getObjValAs? String "variant" with
+    | .ok "old" => .old
+    | _ => .fixed
+  let evs ← (← getArr j "events").toList.mapM remoteEvOf
+  let (s, bad) := remoteReplayFrom v Remote.init 0 evs
+  let q := (getArr j "query").toOption.getD #[]
+  let vis ← q.toList.mapM (fun x => do
+    let a ← x.getArr?
+    let w ← (a[0]?.getD Json.null).getInt?
+    let ns ← nsOf (← (a[1]?.getD Json.null).getStr?)
+    let k ← asBytes (a[2]?.getD Json.null)
+    pure (Json.bool (if w < 0 then (s.remote ns k).isSome else (s.loc w.toNat ns k).isSome)))
+  -- closure of the remote store over the queried target keys
+  let dangling := q.toList.filterMap (fun x =>
+    match x.getArr? with
+    | .ok a =>
+      match (a[0]?.getD Json.null).getInt?, (a[1]?.getD Json.null).getStr?, asBytes (a[2]?.getD Json.null) with
+      | .ok w, .ok "target", .ok k =>
+        if w < 0 then
+          match s.remote .target k with
+          | some b => if b.refs.all (fun r => match s.remote .cas r with
+              | some b' => b'.refs.all (fun r' => (s.remote .cas r').isSome)
+              | none => false) then none else some (jBytes k)
+          | none => none
+        else none
+      | _, _, _ => none
+    | .error _ => none)
+  pure (Json.mkObj [("accepted", Json.bool bad.isNone), ("at", match bad with | some i => Json.num i | none => Json.num (-1 : Int)),
+    ("n", Json.num evs.length), ("visible", Json.arr vis.toArray), ("dangling", Json.arr dangling.toArray)])
+
 def handlers : List (String × Handler) :=
-  [("store.roundtrip", roundtrip), ("store.replay", replay)]
+  [("store.roundtrip", roundtrip), ("store.replay", replay), ("store.remotereplay", remoteReplay)]
 
 end Grog.Drv.Stores
